@@ -552,6 +552,8 @@ def run(ctx: Any, prog: Program) -> None:
             obj = (n.args[0] if n.args else None) if modform else recv
             if not modform and isinstance(recv, ast.Constant):
                 continue
+            if not modform and (n.func.attr in ('remove', 'copy', 'move', 'copyfile', 'copy2', 'rmtree', 'removedirs', 'renames') or (n.func.attr == 'replace' and len(n.args) >= 2)):
+                continue            # list.remove / dict.copy / str.replace(old, new): not file-system calls (Path.replace takes one argument)
             ctx.check('C12.W9', obj is not None and _own(obj), core, n, f'AtomicWriter.{name} calls `{U(n)[:70]}`: it removes or overwrites `{U(obj)[:40] if obj is not None else "?"}`, which is not the writer\'s own temp file - '
                       'other files (another writer\'s temp file, the previous contents of a folder) are destroyed by a failed or abandoned write', func=f'AtomicWriter.{name}', text=f'{name}: {n.func.attr} on the temp file')
     # ---- W10: the temp file exists only inside the with block -------------------------------------------------------------------
